@@ -207,6 +207,7 @@ type c08pUnit struct {
 	nameTy  map[string]string   // … and its Lean type
 	extern  map[string]*c08pFn  // call key (e.g. "tarsprotocol.TarsRequest") -> function of another package, translated into this unit
 	skip    map[string]bool     // call keys of expression statements without modelled effect
+	loopFuel map[string]string  // Lean name of a function with a `for cond {}` loop -> Lean expression bounding its iterations
 	opaqueT map[string]bool     // struct types of the package that are not modelled (parameters of these types are dropped)
 	skipSel map[string]bool     // … by method name (e.g. "checkValid": panics only on a frame the framer has invalidated, never input dependent)
 	newOf   map[string]string   // call key -> struct type it freshly returns (e.g. "fc.getDataFrame" -> "DataFrame")
@@ -227,7 +228,7 @@ type c08pFn struct {
 
 func c08pNewUnit(pkg *c08pPkg, prefix string) *c08pUnit {
 	return &c08pUnit{pkg: pkg, prefix: prefix, names: map[string]string{}, nameTy: map[string]string{}, extern: map[string]*c08pFn{},
-		skip: map[string]bool{}, skipSel: map[string]bool{}, opaqueT: map[string]bool{}, newOf: map[string]string{}, sigs: map[string]*c08pSig{}, busy: map[string]bool{}, byteVar: map[string]string{}}
+		skip: map[string]bool{}, skipSel: map[string]bool{}, opaqueT: map[string]bool{}, loopFuel: map[string]string{}, newOf: map[string]string{}, sigs: map[string]*c08pSig{}, busy: map[string]bool{}, byteVar: map[string]string{}}
 }
 
 func (u *c08pUnit) name(key, lean, ty string) { u.names[key] = lean; u.nameTy[key] = ty }
@@ -667,6 +668,9 @@ func (t *c08pTr) stmts(list []ast.Stmt, sc *c08pScope, k c08pKont) (string, erro
 		if t.u.skip[key] || t.u.skip[c08pMethodKey(sc, c.Fun)] {
 			return rest(sc)
 		}
+		if key == "panic" && len(c.Args) == 1 {
+			return "Chk.oob\n", nil // a Go panic: the safety theorems show it unreachable
+		}
 		if key == "copy" && len(c.Args) == 2 {
 			// copy(x.F[:], src) with x.F a fixed-size array field
 			se, ok := c.Args[0].(*ast.SliceExpr)
@@ -715,6 +719,11 @@ func c08pTerminates(l []ast.Stmt) bool {
 	switch s := l[len(l)-1].(type) {
 	case *ast.ReturnStmt:
 		return true
+	case *ast.ExprStmt:
+		if c, ok := s.X.(*ast.CallExpr); ok && exprKey(c.Fun) == "panic" {
+			return true
+		}
+		return false
 	case *ast.BlockStmt:
 		return c08pTerminates(s.List)
 	case *ast.IfStmt:
@@ -949,6 +958,9 @@ func (t *c08pTr) ifStmt(s *ast.IfStmt, sc *c08pScope, rest c08pKont) (string, er
 // forStmt: `for i := lo; i < hi; i++ { body }` / `i <= hi`; the body may return or fall through (continue); it assigns
 // nothing declared outside; the bound is evaluated once (it must not depend on anything the body assigns: nothing).
 func (t *c08pTr) forStmt(s *ast.ForStmt, sc *c08pScope, rest c08pKont) (string, error) {
+	if s.Init == nil && s.Post == nil && s.Cond != nil {
+		return t.whileStmt(s, sc, rest)
+	}
 	ini, ok := s.Init.(*ast.AssignStmt)
 	if !ok || ini.Tok != token.DEFINE || len(ini.Lhs) != 1 || len(ini.Rhs) != 1 {
 		return "", c08pErrf(s, "for: init is not `i := lo`")
@@ -2199,4 +2211,85 @@ func (t *c08pTr) pkgVar(name string) (c08pVal, bool, error) {
 		}
 	}
 	return c08pVal{}, true, fmt.Errorf("package variable %s: initialiser not supported", name)
+}
+
+// whileStmt: `for cond { body }` whose body may assign variables declared outside (the loop state) and may return.
+// Rendered as `whileLoop cond body after fuel state` (Model/CheckedGo): the state is the tuple of the assigned outer
+// variables, the fuel (a bound on the number of iterations; running out of it answers `oob`, which the safety theorem
+// shows unreachable) is the Lean expression configured for the function in `loopFuel`.
+func (t *c08pTr) whileStmt(s *ast.ForStmt, sc *c08pScope, rest c08pKont) (string, error) {
+	fuel, ok := t.u.loopFuel[t.sig.lean]
+	if !ok {
+		return "", c08pErrf(s, "loop without a configured iteration bound")
+	}
+	bad := false
+	ast.Inspect(s.Body, func(n ast.Node) bool {
+		switch n.(type) {
+		case *ast.BranchStmt, *ast.ForStmt, *ast.RangeStmt, *ast.GoStmt, *ast.DeferStmt, *ast.LabeledStmt:
+			bad = true
+		}
+		return true
+	})
+	if bad {
+		return "", c08pErrf(s, "for: break/continue/nested loop in the body")
+	}
+	asg := map[string]bool{}
+	c08pAssigned(s.Body.List, sc, asg)
+	var keys []string
+	for _, k := range sc.order {
+		if asg[k] {
+			keys = append(keys, k)
+		}
+	}
+	if len(keys) == 0 {
+		return "", c08pErrf(s, "for: the body assigns no outer variable (no progress)")
+	}
+	var tys, names []string
+	for _, k := range keys {
+		v := sc.vars[k]
+		tys = append(tys, v.ty)
+		names = append(names, v.lean)
+	}
+	sty := strings.Join(tys, " × ")
+	tuple := names[0]
+	if len(names) > 1 {
+		tuple = "(" + strings.Join(names, ", ") + ")"
+	}
+	unpack := func() string {
+		var b strings.Builder
+		for i, k := range keys {
+			v := sc.vars[k]
+			fmt.Fprintf(&b, "let %s : %s := %s;\n", v.lean, v.ty, c08pProj("cs", i, len(keys)))
+		}
+		return b.String()
+	}
+	c, err := t.expr(s.Cond, sc.clone(), c08pBool)
+	if err != nil {
+		return "", err
+	}
+	if c.pre != "" || c.ty != c08pBool {
+		return "", c08pErrf(s.Cond, "for: the condition makes accesses / is not boolean")
+	}
+	t.n++
+	next := fmt.Sprintf("cn_%d", t.n)
+	body, err := t.stmts(s.Body.List, sc.clone(), func(in *c08pScope) (string, error) {
+		var cur []string
+		for _, k := range keys {
+			cur = append(cur, in.vars[k].lean)
+		}
+		tp := cur[0]
+		if len(cur) > 1 {
+			tp = "(" + strings.Join(cur, ", ") + ")"
+		}
+		return next + " " + tp + "\n", nil
+	})
+	if err != nil {
+		return "", err
+	}
+	after, err := rest(sc.clone())
+	if err != nil {
+		return "", err
+	}
+	return fmt.Sprintf("whileLoop (σ := %s) (fun cs =>\n%s) (fun cs %s =>\n%s) (fun cs =>\n%s) (%s) %s\n", sty,
+		c08pIndent(unpack()+c.val), next, c08pIndent(unpack()+body), c08pIndent(unpack()+after), fuel, tuple), nil
 }
